@@ -23,6 +23,12 @@
 
 
 
+#if defined(APACHE_XALAN_C_VERIF)
+#include <cstdlib>
+#endif
+
+
+
 #include <xercesc/sax/DocumentHandler.hpp>
 #include <xercesc/sax/EntityResolver.hpp>
 #include <xercesc/sax/Locator.hpp>
@@ -145,7 +151,13 @@ XSLTEngineImpl::XSLTEngineImpl(
     m_problemListener(&m_defaultProblemListener),
     m_stylesheetRoot(0),
     m_traceSelects(false),
+#if defined(APACHE_XALAN_C_VERIF)
+    // Verification hook: lets a harness exercise the conflict-reporting
+    // template lookup through XalanTransformer, which has no setter for it.
+    m_quietConflictWarnings(std::getenv("XALAN_VERIF_CONFLICT_WARNINGS") == 0),
+#else
     m_quietConflictWarnings(true),
+#endif
     m_diagnosticsPrintWriter(0),
     m_traceListeners(theManager),
     m_uniqueNSValue(0),
